@@ -62,7 +62,7 @@ class Inner(GeminiServerProtocol):
 
 
 class PumpHarness:
-    def __init__(self, items, reply, client_cert=None):
+    def __init__(self, items, reply, client_cert=None, mfl=None):
         global _CERT, _CTX
         if _CERT is None:
             _CERT = CertFiles("ec", "localhost")
@@ -94,7 +94,7 @@ class PumpHarness:
         self.tr = FakeTransport(self.loop, self.proto, tls=False, auto_lost=False)
         self.loop.call(self.proto.connection_made, self.tr)
         self.t0 = self.loop.time()
-        self.cl = MemTLSClient(client_cert=client_cert)
+        self.cl = MemTLSClient(client_cert=client_cert, mfl=mfl)
         self.fed = 0
         self.rest = b""            # remainder of a half-fed item
         self.moved = 0             # server bytes already given to the client
@@ -324,7 +324,11 @@ def b2(pid, rep, rnd, own, count):
         items = [{"k": "hs", "plen": 0}, {"k": "hs", "plen": 0}, {"k": "app", "plen": len(REQ)}] + \
                 ([{"k": "app", "plen": extra}] if extra else [])
         reply = {"after": len(REQ), "writes": [len(HEADER), size] if size else [len(HEADER)]}
-        h = PumpHarness(items, reply)
+        # some peers negotiate small records (RFC 6066 max_fragment_length): send() then takes less than it is given
+        mfl = rnd.choice([None, None, 1, 2, 3, 4])
+        h = PumpHarness(items, reply, mfl=mfl)
+        if mfl and h.cl.mfl_enabled:
+            rep.add("runs_with_max_fragment_length")
         try:
             # flight 1 in random pieces
             c1 = h._gen(1)
